@@ -450,15 +450,23 @@ func checkC19(rep *Report, rng *Rng, tier string) {
 				o.K = "len"
 			}
 			out = append(out, o)
-			if r.Chance(1, 10) {
+			if r.Chance(1, 8) {
 				out = append(out, Op{K: "flush"}, Op{K: "reopen"})
 				opens++
+				k := []string{"geti", "get", "exist", "min", "max", "geti"}[r.Intn(6)]
+				key := o.Key
+				if len(key) == 0 {
+					key = []byte("a")
+				}
+				out = append(out, Op{K: k, Name: o.Name, Key: key, WV: r.Chance(1, 2)})
 			}
 		}
-		d := CfgDesc{Check: "C19", FileBacked: true, CmpCB: g.CmpMode == 1}
+		d := CfgDesc{Check: "C19", FileBacked: true, CmpCB: g.CmpMode == 1, Post: "lazyreads"}
 		return d.RunCfg(), out, d.String()
 	}, nil)
 	rep.Extra["reopens_generated"] = opens
+	rep.Extra["read_lists_compared_with_model"] = lazyCompared
+	rep.Extra["open_read_lists_compared_with_model"] = lazyOpenCompared
 }
 
 func genC02(r *Rng, i int) (CfgDesc, []Op) {
@@ -533,4 +541,70 @@ func genC06(r *Rng, i int) (CfgDesc, []Op) {
 	}
 	d := CfgDesc{Check: "C06", FileBacked: g.FileBacked, CmpCB: g.CmpMode == 1, Post: "depth"}
 	return d, ops
+}
+
+var lazyCompared, lazyOpenCompared int
+
+func init() {
+	postOracles["lazyreads"] = func(cfg *RunCfg) {
+		fresh := false // the store has just been re-opened: nothing is cached
+		cfg.OnWorld = func(w *World) { fresh = false }
+		cfg.PostStep = func(w *World, i int, op Op, obs string) *Mismatch {
+			wasFresh := fresh
+			fresh = op.K == "reopen" && op.H == 0 && obs == "ok"
+			if w.File == nil || op.H != 0 {
+				return nil
+			}
+			var reads []string
+			for _, e := range w.LastEvents {
+				if e.Kind == 'R' {
+					reads = append(reads, fmt.Sprintf("%d:%d", e.Off, e.Len))
+				}
+			}
+			got := strings.Join(append([]string{"r"}, reads...), " ")
+			img := w.File.Bytes()
+			if fresh && int64(len(img)) == w.IO.DurableEnd && len(img) > 0 {
+				// NewStore: Stat, then exactly the reads the model predicts
+				exp, err := getModel().request("openreads " + hexFile(img))
+				lazyOpenCompared++
+				if err == nil && exp != got {
+					return &Mismatch{Kind: "open-reads-vs-model", Expected: exp, Observed: got, Note: "ReadAt calls of NewStore vs Lazy.open_reads"}
+				}
+			}
+			if !wasFresh {
+				return nil
+			}
+			kind, wv := "", op.WV
+			switch op.K {
+			case "get":
+				kind, wv = "get", true
+			case "geti":
+				kind = "get"
+			case "exist":
+				kind, wv = "get", false
+			case "min", "max":
+				kind = op.K
+			default:
+				return nil
+			}
+			rc, ok := w.H[0].Ref.Colls[op.Name]
+			if !ok {
+				return nil
+			}
+			b := "f"
+			if wv {
+				b = "t"
+			}
+			exp, err := getModel().request(fmt.Sprintf("reads %s %d %s %s %s %s", kind, rc.Cmp, hx([]byte(op.Name)), hx(op.Key), b, hexFile(img)))
+			if err != nil {
+				return &Mismatch{Kind: "model-runner", Expected: "model evaluation", Observed: err.Error()}
+			}
+			lazyCompared++
+			if exp != got {
+				return &Mismatch{Kind: "reads-vs-model", Expected: exp, Observed: got,
+					Note: "ReadAt calls (offset:length) of the first call after re-opening vs the Coq model Lazy.get_reads / minmax_reads"}
+			}
+			return nil
+		}
+	}
 }
